@@ -606,7 +606,7 @@ def analyse(rec, c, k, out_path, inp_path, payload):
     if cont and len(sampled) > 1:
         for t, key in task_key.items():
             parts = [x.split(':', 1) for x in key.split(';') if x]
-            if len(parts) == len(c['inputs']):
+            if len(parts) == len(c['inputs']) and all(len(x) == 2 for x in parts):
                 tvecs[tuple(parts[j][1] for j in cont)] += 1
         tdup = sum(n for n in tvecs.values() if n > 1)
         rec['distinct_task_vectors'] = len(tvecs)
@@ -676,6 +676,10 @@ def analyse(rec, c, k, out_path, inp_path, payload):
 
 
 def _loss_cause(t, lock_events, lost_buffers, k, tasks, task_ok):
+    if any(pool.broken for pool in k.pools) and k.fault_fired.get('kill'):
+        # an injected SIGKILL broke the pool: CPython fails every pending future and terminates the other workers,
+        # the driver may raise out of submit()/result(); whatever was not yet appended is lost with it
+        return 'pool_broken'
     if t is None:
         return 'unknown'
     ev = lock_events.get(t, [])
